@@ -10,11 +10,20 @@
 //     3-of-5 fixture wallet and (b) wallets freshly produced by real dkg.Execute runs with
 //     excluded members and registered through finalSigningGroup like registerSigner does;
 //     ecdsa.Verify under the wallet key and the low-S test are evaluated here and judged
-//     in Coq.
+//     in Coq; thorough tier only: (c) a "derived" 3-of-5 wallet whose shares are the fixture
+//     polynomial evaluated at OTHER party keys (seed + member of a larger group with exclusions,
+//     e.g. 8..12), so that real signing runs over party keys of mixed digit counts.
+//
+// The MAGNITUDE of the party keys is a generator dimension of fsg / conv / sprobe: seeds just
+// below 10, 100, 1000, 10^4, 2^32, 2^63, 2^64, 10^19, 10^20, 2^128, 2^256 so that seed + member
+// crosses the boundary inside one wallet, and key lists of mixed lengths; in each of these streams
+// the REAL converter (TssPartyIDToMemberIndex) is applied to every party key of the wallet and
+// judged by the executable property (maps to the index holding that key, never 0 / another).
 package main
 
 import (
 	"crypto/elliptic"
+	"errors"
 	"fmt"
 	"math/big"
 	"os"
@@ -23,6 +32,7 @@ import (
 	"time"
 
 	tsscommon "github.com/bnb-chain/tss-lib/common"
+	tsscrypto "github.com/bnb-chain/tss-lib/crypto"
 	"github.com/bnb-chain/tss-lib/ecdsa/keygen"
 
 	"github.com/keep-network/keep-core/pkg/chain"
@@ -78,8 +88,9 @@ type sprobeIn struct {
 }
 
 type signIn struct {
-	Wallet      string    `json:"wallet"` // "fixture" | "dkg"
-	Seed        string    `json:"seed"`   // dkg wallets
+	Wallet      string    `json:"wallet"` // "fixture" | "dkg" | "derived"
+	Seed        string    `json:"seed"`   // dkg and derived wallets
+	Size        int       `json:"size,omitempty"` // derived wallets: seats of the key-generation group
 	DkgExcluded run.Idx   `json:"dkg_excluded"`
 	SeatOp      []int     `json:"seat_op"`
 	Quorum      int       `json:"quorum"`
@@ -126,6 +137,57 @@ func minInt(a, b int) int {
 		return a
 	}
 	return b
+}
+
+// count picks the case count of a stream; the search tier (run automatically after a
+// model/implementation disagreement) is capped so that one round stays within minutes.
+func count(o lib.Opts, quick, thorough, search int) int {
+	if o.N > 0 {
+		return o.N
+	}
+	switch o.Tier {
+	case "thorough":
+		return thorough
+	case "search":
+		return search
+	}
+	return quick
+}
+
+// key magnitudes: powers of ten (digit count of the decimal form) and of two (word sizes)
+var bounds = func() []*big.Int {
+	var out []*big.Int
+	for _, e := range []int64{1, 2, 3, 4, 19, 20} {
+		out = append(out, new(big.Int).Exp(big.NewInt(10), big.NewInt(e), nil))
+	}
+	for _, e := range []uint{32, 63, 64, 128, 256} {
+		out = append(out, new(big.Int).Lsh(big.NewInt(1), e))
+	}
+	return out
+}()
+
+// boundarySeed returns a seed at most span below a magnitude boundary (never negative), so that
+// seed + member crosses the boundary for members within 1..span.
+func boundarySeed(r *lib.Rng, span int) string {
+	b := bounds[r.Intn(len(bounds))]
+	if r.Chance(1, 2) {
+		b = bounds[r.Intn(4)] // 10, 100, 1000, 10^4: the digit-count boundaries of real groups
+	}
+	s := new(big.Int).Sub(b, big.NewInt(int64(r.Range(1, span))))
+	if s.Sign() < 0 {
+		s.SetInt64(0)
+	}
+	return s.String()
+}
+
+// realKeyToIndex calls the real TssPartyIDToMemberIndex; 999 stands for a panic.
+func realKeyToIndex(keys []*big.Int, k *big.Int) (out uint64) {
+	defer func() {
+		if r := recover(); r != nil {
+			out = 999
+		}
+	}()
+	return uint64(signing.VerifKeyToMemberIndex(keys, k))
 }
 
 // ---------------------------------------------------------------- finalSigningGroup
@@ -191,8 +253,28 @@ func rankList(selected []string) string {
 
 func runFsg(in *fsgIn, em *lib.Emitter, id string) {
 	out, human, _, _ := callFsg(in.Selected, in.Operating, in.Size, in.Quorum, in.Honest)
-	coq := fmt.Sprintf("(CFsg {| f_selected := %s; f_operating := %s; f_size := %s; f_quorum := %s; f_seed := %s; f_out := %s |})",
-		rankList(in.Selected), idxList(in.Operating), lib.Z(int64(in.Size)), lib.Z(int64(in.Quorum)), lib.ZBig(bigOf(in.Seed)), out)
+	// the keys the wallet's shares hold (Ks): seed + m over the operating members, ascending; the real
+	// signing converter over them is asked for the member index of every member's party key
+	seed := bigOf(in.Seed)
+	ks := make([]*big.Int, len(in.Operating))
+	for i, m := range in.Operating {
+		ks[i] = new(big.Int).Add(seed, big.NewInt(int64(m)))
+	}
+	sort.SliceStable(ks, func(i, j int) bool { return ks[i].Cmp(ks[j]) < 0 })
+	conv := make([]uint64, len(in.Operating))
+	for i, m := range in.Operating {
+		conv[i] = realKeyToIndex(ks, new(big.Int).Add(seed, big.NewInt(int64(m))))
+	}
+	human = map[string]interface{}{"final_signing_group": human, "ks": fmt.Sprint(ks), "key_to_index": conv}
+	coq := fmt.Sprintf("(CFsg {| f_selected := %s; f_operating := %s; f_size := %s; f_quorum := %s; f_seed := %s; f_out := %s; f_conv := %s |})",
+		rankList(in.Selected), idxList(in.Operating), lib.Z(int64(in.Size)), lib.Z(int64(in.Quorum)), lib.ZBig(seed), out, lib.ListN(conv))
+	digits := map[int]bool{}
+	for _, k := range ks {
+		digits[len(k.String())] = true
+	}
+	if len(digits) > 1 {
+		em.Tally("fsg-keys-of-mixed-digit-count")
+	}
 	shifted := false
 	sorted := run.SortedIdx(in.Operating)
 	for i, m := range sorted {
@@ -225,6 +307,9 @@ func addr(r *lib.Rng) string {
 }
 
 func genSeed(r *lib.Rng) string {
+	if r.Chance(1, 3) {
+		return boundarySeed(r, 12)
+	}
 	switch r.Intn(6) {
 	case 0:
 		return "0"
@@ -250,6 +335,9 @@ func genFsg(r *lib.Rng) *fsgIn {
 		pool[i] = addr(r)
 	}
 	in := &fsgIn{Size: size, Seed: genSeed(r)}
+	if r.Chance(1, 3) {
+		in.Seed = boundarySeed(r, size) // seed + m crosses a magnitude boundary within 1..size
+	}
 	for i := 0; i < size; i++ {
 		in.Selected = append(in.Selected, pool[r.Intn(nOps)])
 	}
@@ -322,11 +410,18 @@ func runConv(in *convIn, em *lib.Emitter, id string) {
 			idxOut[i], humanIdx[i] = lib.Some(lib.ZBig(k)), k.String()
 		}()
 	}
-	keyOut := make(run.Idx, len(in.Key))
+	keyOut := make([]uint64, len(in.Key))
 	keyIn := make([]string, len(in.Key))
 	for i, k := range in.Key {
-		keyOut[i] = signing.VerifKeyToMemberIndex(keys, bigOf(k))
+		keyOut[i] = realKeyToIndex(keys, bigOf(k))
 		keyIn[i] = lib.ZBig(bigOf(k))
+	}
+	digits := map[int]bool{}
+	for _, k := range in.Keys {
+		digits[len(k)] = true
+	}
+	if len(digits) > 1 {
+		em.Tally("conv-keys-of-mixed-digit-count")
 	}
 	sigIn := make([]string, len(in.Sigs))
 	sigOut := make([]string, len(in.Sigs))
@@ -345,7 +440,7 @@ func runConv(in *convIn, em *lib.Emitter, id string) {
 		}()
 	}
 	coq := fmt.Sprintf("(CConv {| v_keys := %s; v_idx := %s; v_idx_out := %s; v_key := %s; v_key_out := %s; v_sig := %s; v_sig_out := %s |})",
-		zlist(keys), idxList(in.Idx), lib.List(idxOut), lib.List(keyIn), idxList(keyOut), lib.List(sigIn), lib.List(sigOut))
+		zlist(keys), idxList(in.Idx), lib.List(idxOut), lib.List(keyIn), lib.ListN(keyOut), lib.List(sigIn), lib.List(sigOut))
 	em.Tally("conv")
 	em.Case(lib.Case{ID: id, Coq: coq, Key: fmt.Sprintf("conv|%v|%v|%v|%v", in.Keys, in.Idx, in.Key, in.Sigs),
 		Nontrivial: len(in.Keys) >= 2 && len(in.Idx) > 0,
@@ -360,10 +455,28 @@ func genConv(r *lib.Rng) *convIn {
 	}
 	in := &convIn{}
 	seed := bigOf(genSeed(r))
+	if r.Chance(1, 3) {
+		seed = bigOf(boundarySeed(r, 2*n+1)) // the list crosses a magnitude boundary
+	}
 	cur := new(big.Int).Set(seed)
-	for i := 0; i < n; i++ {
-		cur = new(big.Int).Add(cur, big.NewInt(int64(r.Range(1, 3))))
-		in.Keys = append(in.Keys, cur.String())
+	if n > 1 && r.Chance(1, 5) {
+		// an ascending list of keys of unrelated magnitudes (1..80 bits)
+		var ks []*big.Int
+		for i := 0; i < n; i++ {
+			k := new(big.Int).SetBytes(r.Bytes(10))
+			k.Rsh(k, uint(r.Intn(80)))
+			ks = append(ks, k)
+		}
+		sort.Slice(ks, func(i, j int) bool { return ks[i].Cmp(ks[j]) < 0 })
+		seed = ks[0]
+		for _, k := range ks {
+			in.Keys = append(in.Keys, k.String())
+		}
+	} else {
+		for i := 0; i < n; i++ {
+			cur = new(big.Int).Add(cur, big.NewInt(int64(r.Range(1, 3))))
+			in.Keys = append(in.Keys, cur.String())
+		}
 	}
 	if n > 1 && r.Chance(1, 8) {
 		in.Keys[r.Intn(n)] = in.Keys[r.Intn(n)] // possibly a duplicate key
@@ -381,6 +494,9 @@ func genConv(r *lib.Rng) *convIn {
 				in.Idx = append(in.Idx, uint8(1+r.Intn(n)))
 			}
 		}
+	}
+	if n > 0 && r.Chance(1, 2) {
+		in.Key = append(in.Key, in.Keys...) // every party key of the wallet
 	}
 	for i := r.Range(0, 6); i > 0; i-- {
 		if n > 0 && r.Chance(2, 3) {
@@ -445,6 +561,7 @@ func runSProbe(in *sprobeIn, em *lib.Emitter, id string) {
 		History   []run.Idx
 		Received  []run.Idx
 		Can       []bool
+		KeyToIdx  []uint64 // real TssPartyIDToMemberIndex of every party key the member built
 	}
 	var o obs
 	p := signing.VerifNewProbe(run.Logger, in.Self, share, in.Size, in.T, in.DQ, g.Validator, in.Session)
@@ -463,6 +580,12 @@ func runSProbe(in *sprobeIn, em *lib.Emitter, id string) {
 		}()
 		o.Own, o.Keys = p.PartyKeys()
 	}()
+	o.KeyToIdx = []uint64{}
+	if o.KeysPanic == "" {
+		for _, k := range o.Keys {
+			o.KeyToIdx = append(o.KeyToIdx, realKeyToIndex(keys, k))
+		}
+	}
 	for k := 0; k < signing.VerifMessageKinds; k++ {
 		o.History = append(o.History, p.History(k))
 		o.Received = append(o.Received, p.Received(k))
@@ -504,9 +627,9 @@ func runSProbe(in *sprobeIn, em *lib.Emitter, id string) {
 	}
 	coq := fmt.Sprintf("(CSProbe {| sp_size := %s; sp_t := %s; sp_self := %s; sp_keys := %s; sp_dq := %s; sp_ops := %s; "+
 		"sp_session := 1%%N; sp_msgs := %s; so_operating := %s; so_own := %s; so_keys := %s; so_history := %s; "+
-		"so_received := %s; so_can := %s |})",
+		"so_received := %s; so_can := %s; so_index := %s |})",
 		lib.N(uint64(in.Size)), lib.Z(int64(in.T)), lib.N(uint64(in.Self)), zlist(keys), idxList(in.DQ), lib.ListN(seatOps),
-		lib.List(msgs), idxList(o.Operating), own, pkeys, lists(o.History), lists(o.Received), lib.List(can))
+		lib.List(msgs), idxList(o.Operating), own, pkeys, lists(o.History), lists(o.Received), lib.List(can), lib.ListN(o.KeyToIdx))
 	em.Tally("sprobe")
 	em.Case(lib.Case{ID: id, Coq: coq,
 		Key:        fmt.Sprintf("sprobe|%d|%d|%v|%v|%v|%v", in.Size, in.Self, in.Keys, in.DQ, in.SeatOp, in.Msgs),
@@ -543,6 +666,9 @@ func genSProbe(r *lib.Rng) *sprobeIn {
 		nKeys = r.Range(0, size+2)
 	}
 	cur := bigOf(genSeed(r))
+	if r.Chance(1, 3) {
+		cur = bigOf(boundarySeed(r, 2*nKeys+1))
+	}
 	for i := 0; i < nKeys; i++ {
 		cur = new(big.Int).Add(cur, big.NewInt(int64(r.Range(1, 3))))
 		in.Keys = append(in.Keys, cur.String())
@@ -618,6 +744,57 @@ func loadFixtures() error {
 
 const groupSize, honestThreshold = 5, 3
 
+// derivedShares builds the key shares of a 3-of-5 wallet whose members used the given party keys
+// at key generation: the degree-2 share polynomial of the fixture wallet (party keys 201..205) is
+// interpolated from three fixture shares and evaluated at the new keys, so the wallet public key
+// is unchanged; the auxiliary material (Paillier keys, NTilde, H1, H2) is reused by position.
+func derivedShares(partyKeys []*big.Int) ([]keygen.LocalPartySaveData, error) {
+	if len(partyKeys) != len(fixtures) {
+		return nil, errors.New("derived wallets have exactly as many members as there are fixtures")
+	}
+	q := tecdsa.Curve.Params().N
+	evaluate := func(x *big.Int) *big.Int {
+		result := big.NewInt(0)
+		for i := 0; i < 3; i++ {
+			term := new(big.Int).Set(fixtures[i].Xi)
+			for j := 0; j < 3; j++ {
+				if i == j {
+					continue
+				}
+				num := new(big.Int).Sub(x, fixtures[j].ShareID)
+				den := new(big.Int).Sub(fixtures[i].ShareID, fixtures[j].ShareID)
+				den.Mod(den, q)
+				term.Mul(term, num)
+				term.Mul(term, new(big.Int).ModInverse(den, q))
+				term.Mod(term, q)
+			}
+			result.Add(result, term)
+			result.Mod(result, q)
+		}
+		return result
+	}
+	for i := 3; i < len(fixtures); i++ {
+		if evaluate(fixtures[i].ShareID).Cmp(fixtures[i].Xi) != 0 {
+			return nil, fmt.Errorf("fixture share %d is not on the polynomial", i)
+		}
+	}
+	ks := make([]*big.Int, len(partyKeys))
+	bigXs := make([]*tsscrypto.ECPoint, len(partyKeys))
+	xs := make([]*big.Int, len(partyKeys))
+	for i, k := range partyKeys {
+		ks[i] = new(big.Int).Set(k)
+		xs[i] = evaluate(k)
+		bigXs[i] = tsscrypto.ScalarBaseMult(tecdsa.Curve, xs[i])
+	}
+	shares := make([]keygen.LocalPartySaveData, len(partyKeys))
+	for i := range partyKeys {
+		sh := fixtures[i]
+		sh.Xi, sh.ShareID, sh.Ks, sh.BigXj = xs[i], ks[i], ks, bigXs
+		shares[i] = sh
+	}
+	return shares, nil
+}
+
 func runSign(in *signIn, em *emitMu, id string) {
 	if err := loadFixtures(); err != nil {
 		fmt.Fprintln(os.Stderr, "fixtures:", err)
@@ -645,7 +822,31 @@ func runSign(in *signIn, em *emitMu, id string) {
 	members := map[group.MemberIndex]*dkgMember{}
 	var seed *big.Int
 	dkgNote := ""
-	if in.Wallet == "fixture" {
+	size := groupSize // seats of the key-generation group
+	if in.Wallet == "derived" {
+		size = in.Size
+		seed = bigOf(in.Seed)
+		ex := map[uint8]bool{}
+		for _, e := range in.DkgExcluded {
+			ex[e] = true
+		}
+		var operating []group.MemberIndex
+		var keys []*big.Int
+		for m := 1; m <= size; m++ {
+			if !ex[uint8(m)] {
+				operating = append(operating, group.MemberIndex(m))
+				keys = append(keys, new(big.Int).Add(seed, big.NewInt(int64(m))))
+			}
+		}
+		ds, err := derivedShares(keys)
+		if err != nil {
+			fmt.Fprintln(os.Stderr, "derived wallet:", err)
+			os.Exit(2)
+		}
+		for i, m := range operating {
+			members[m] = &dkgMember{tecdsa.NewPrivateKeyShare(ds[i]), operating}
+		}
+	} else if in.Wallet == "fixture" {
 		seed = big.NewInt(200)
 		for i := range fixtures {
 			members[group.MemberIndex(i+1)] = &dkgMember{tecdsa.NewPrivateKeyShare(fixtures[i]), []group.MemberIndex{1, 2, 3, 4, 5}}
@@ -699,7 +900,7 @@ func runSign(in *signIn, em *emitMu, id string) {
 	finalOf := map[group.MemberIndex]group.MemberIndex{}
 	var finalOps []chain.Address
 	for _, m := range dkgOperating {
-		c, h, fo, idx, oc, ic := callFsgParts(selected, members[m].operating, groupSize, in.Quorum, honestThreshold)
+		c, h, fo, idx, oc, ic := callFsgParts(selected, members[m].operating, size, in.Quorum, honestThreshold)
 		if fsgCoq == "" {
 			fsgCoq, fsgHuman, finalOps, finalOpsCoq, finalCoq = c, h, fo, oc, ic
 		}
@@ -756,10 +957,10 @@ func runSign(in *signIn, em *emitMu, id string) {
 	emit := func(si int, signers run.Idx, obs []string, human interface{}, nDone int, traffic interface{}) {
 		coq := fmt.Sprintf("(CSign {| w_seed := %s; w_selected := %s; w_size := %s; w_quorum := %s; w_final_ops := %s; "+
 			"w_dkg_operating := %s; w_final := %s; w_ks := %s; w_share_ids := %s; w_honest := %s; w_signers := %s; w_obs := %s |})",
-			lib.ZBig(seed), rankList(selected), lib.Z(groupSize), lib.Z(int64(in.Quorum)), finalOpsCoq, idxList(dkgOperating),
+			lib.ZBig(seed), rankList(selected), lib.Z(int64(size)), lib.Z(int64(in.Quorum)), finalOpsCoq, idxList(dkgOperating),
 			finalCoq, zlist(ks), lib.List(shareIDs), lib.N(honestThreshold), idxList(signers), lib.List(obs))
 		one := *in
-		em.em.Tally(fmt.Sprintf("sign-%s-excluded-at-dkg-%d", in.Wallet, groupSize-k))
+		em.em.Tally(fmt.Sprintf("sign-%s-excluded-at-dkg-%d", in.Wallet, size-k))
 		em.em.Case(lib.Case{ID: fmt.Sprintf("%s-%d", id, si), Coq: coq,
 			Key:        fmt.Sprintf("sign|%s|%v|%v|%s", in.Wallet, in.DkgExcluded, signers, in.Messages[si%len(in.Messages)]),
 			Nontrivial: nDone >= honestThreshold,
@@ -894,7 +1095,7 @@ func genSigns(o lib.Opts, rng *lib.Rng) []*signIn {
 		return m
 	}
 	var out []*signIn
-	if o.Tier == "quick" {
+	if o.Tier == "quick" || o.Tier == "search" {
 		x := uint8(r.Range(1, 5))
 		out = append(out, &signIn{Wallet: "dkg", Seed: genSeed(r), DkgExcluded: run.Idx{x}, SeatOp: seatOps(), Quorum: 3,
 			Subsets: pick(subsets(4, 3), 2), Messages: msgs(2), Chaos: chaos(), ChaosSeed: r.U64(), BudgetS: 900})
@@ -913,6 +1114,25 @@ func genSigns(o lib.Opts, rng *lib.Rng) []*signIn {
 		Subsets: subsets(3, 3), Messages: msgs(1), Chaos: chaos(), ChaosSeed: r.U64(), BudgetS: 1800})
 	out = append(out, &signIn{Wallet: "dkg", Seed: genSeed(r), DkgExcluded: run.Idx{uint8(p[3] + 1)}, SeatOp: seatOps(), Quorum: 4,
 		Subsets: pick(subsets(4, 3), 2), Messages: msgs(2), Chaos: chaos(), ChaosSeed: r.U64(), BudgetS: 1800})
+	// a derived wallet: 12 seats, 7 members excluded at key generation, party keys of mixed digit
+	// counts; seed 0 with members 8..12 (keys 8, 9, 10, 11, 12) or a seed just below another boundary
+	{
+		ex, seed := run.Idx{1, 2, 3, 4, 5, 6, 7}, "0"
+		if r.Chance(1, 2) {
+			perm := r.Perm(12)
+			ex = nil
+			for _, x := range perm[:7] {
+				ex = append(ex, uint8(x+1))
+			}
+			seed = boundarySeed(r, 12)
+		}
+		seat := make([]int, 12)
+		for i := range seat {
+			seat[i] = i % 7
+		}
+		out = append(out, &signIn{Wallet: "derived", Seed: seed, Size: 12, DkgExcluded: ex, SeatOp: seat, Quorum: 5,
+			Subsets: pick(subsets(5, 3), 2), Messages: msgs(2), Chaos: chaos(), ChaosSeed: r.U64(), BudgetS: 1800})
+	}
 	return out
 }
 
@@ -973,16 +1193,32 @@ func main() {
 		runFsg(&fsgIn{Selected: []string{a, b, c}, Operating: run.Idx{1}, Size: 3, Quorum: 2, Honest: 2, Seed: "1"}, em, "corpus-below-quorum")
 		runConv(&convIn{Keys: []string{"201", "203", "204", "205"}, Idx: run.Idx{0, 1, 2, 4, 5}, Key: []string{"201", "202", "205", "0"},
 			Sigs: []sigIn{{R: []byte{0, 1, 2}, S: []byte{255}, Rec: []byte{1}}, {R: nil, S: nil, Rec: nil}, {R: []byte{1}, S: []byte{2}, Rec: []byte{200, 7}}}}, em, "corpus-conv")
+		// party keys of mixed magnitude: 12 seats, members 1..7 excluded at key generation, seed 0
+		sel12 := []string{"0x01", "0x02", "0x03", "0x04", "0x05", "0x06", "0x07", "0x08", "0x09", "0x0a", "0x0b", "0x0c"}
+		runFsg(&fsgIn{Selected: sel12, Operating: run.Idx{8, 9, 10, 11, 12}, Size: 12, Quorum: 5, Honest: 3, Seed: "0"}, em, "corpus-keys-8-to-12")
+		runFsg(&fsgIn{Selected: sel12, Operating: run.Idx{1, 2, 3, 4, 5, 6, 7, 8, 9, 10, 11, 12}, Size: 12, Quorum: 7, Honest: 7, Seed: "0"}, em, "corpus-group-of-twelve")
+		runFsg(&fsgIn{Selected: sel12[:5], Operating: run.Idx{1, 2, 4, 5}, Size: 5, Quorum: 3, Honest: 3, Seed: "18446744073709551613"}, em, "corpus-keys-across-2-64")
+		runConv(&convIn{Keys: []string{"8", "9", "10", "11", "12"}, Idx: run.Idx{1, 2, 3, 4, 5}, Key: []string{"8", "9", "10", "11", "12", "7", "13", "1", "80"}}, em, "corpus-conv-keys-8-to-12")
+		runConv(&convIn{Keys: []string{"98", "99", "100", "101"}, Idx: run.Idx{1, 2, 3, 4}, Key: []string{"98", "99", "100", "101"}}, em, "corpus-conv-keys-98-to-101")
+		runConv(&convIn{Keys: []string{"9223372036854775806", "9223372036854775807", "9223372036854775808", "18446744073709551615", "18446744073709551616"},
+			Idx: run.Idx{1, 2, 3, 4, 5}, Key: []string{"9223372036854775806", "9223372036854775807", "9223372036854775808", "18446744073709551615", "18446744073709551616", "0"}}, em, "corpus-conv-keys-across-words")
+		runSProbe(&sprobeIn{Size: 5, T: 2, Self: 2, Keys: []string{"8", "9", "10", "11", "12"}, DQ: run.Idx{4}, SeatOp: []int{0, 1, 2, 3, 4}, Session: "s1",
+			Msgs: []msgIn{{State: 0, Kind: 0, Sender: 1, Op: 0, Session: "s1"}, {State: 2, Kind: 1, Sender: 3, Op: 2, Session: "s1"}, {State: 2, Kind: 1, Sender: 4, Op: 3, Session: "s1"}}}, em, "corpus-sprobe-keys-8-to-12")
 	})
 	// --- exhaustive small scope: every exclusion set of groups of 1..6 members (quorum = operating count
 	// or smaller), distinct operators
 	small := 0
 	for size := 1; size <= 6; size++ {
 		for mask := 0; mask < 1<<size; mask++ {
-			if o.Tier == "quick" && (mask+size)%2 != int(o.Seed%2) {
+			if o.Tier != "thorough" && (mask+size)%2 != int(o.Seed%2) {
 				continue
 			}
 			in := &fsgIn{Size: size, Seed: fmt.Sprint(100 * size)}
+			if (mask/2)%3 != 0 {
+				// two cases of three: a seed such that seed + m crosses a magnitude boundary inside 1..size
+				b := bounds[(mask/6+size+int(o.Seed))%len(bounds)]
+				in.Seed = new(big.Int).Sub(b, big.NewInt(int64(1+(mask/2+size)%size))).String()
+			}
 			for i := 0; i < size; i++ {
 				in.Selected = append(in.Selected, fmt.Sprintf("0x%02x", (i*7)%size+1))
 				if mask>>i&1 == 0 {
@@ -998,15 +1234,36 @@ func main() {
 			small++
 		}
 	}
-	n := o.Count(1200, 6000)
+	// every group size 10..16 with seed 0 (a real group with more than nine members): every way of excluding
+	// at most two members
+	for size := 10; size <= 16; size++ {
+		for a := 0; a <= size; a++ {
+			for b := a; b <= size; b++ {
+				if o.Tier != "thorough" && (a+b+size)%4 != int(o.Seed%4) {
+					continue
+				}
+				in := &fsgIn{Size: size, Seed: "0"}
+				for i := 1; i <= size; i++ {
+					in.Selected = append(in.Selected, fmt.Sprintf("0x%02x", (i*5)%size+1))
+					if i != a && i != b {
+						in.Operating = append(in.Operating, uint8(i))
+					}
+				}
+				in.Quorum = size - 2
+				in.Honest = in.Quorum
+				locked(func() { runFsg(in, em, fmt.Sprintf("tens-%d-%d-%d", size, a, b)) })
+			}
+		}
+	}
+	n := count(o, 1200, 6000, 1100)
 	for i := 0; i < n; i++ {
 		locked(func() { runFsg(genFsg(rng.Fork(fmt.Sprintf("fsg%d", i))), em, fmt.Sprintf("fsg-%d", i)) })
 	}
-	n = o.Count(400, 2000)
+	n = count(o, 400, 2000, 500)
 	for i := 0; i < n; i++ {
 		locked(func() { runConv(genConv(rng.Fork(fmt.Sprintf("conv%d", i))), em, fmt.Sprintf("conv-%d", i)) })
 	}
-	n = o.Count(500, 3000)
+	n = count(o, 500, 3000, 600)
 	for i := 0; i < n; i++ {
 		locked(func() { runSProbe(genSProbe(rng.Fork(fmt.Sprintf("sprobe%d", i))), em, fmt.Sprintf("sprobe-%d", i)) })
 	}
